@@ -35,6 +35,7 @@ class Acc:
         self.cases = 0
         self.stats = Counter()
         self.nontrivial = set()       # h64 keys of distinct non-trivial cases
+        self.nontrivial_count = 0     # non-trivial cases that are distinct by construction (disjoint grids)
         self.states = set()
         self.transitions = set()
         self.traces_validated = 0
@@ -61,6 +62,7 @@ class Acc:
         self.cases += other.cases
         self.stats.update(other.stats)
         self.nontrivial |= other.nontrivial
+        self.nontrivial_count += other.nontrivial_count
         self.states |= other.states
         self.transitions |= other.transitions
         self.traces_validated += other.traces_validated
@@ -213,7 +215,7 @@ def run_check(check, tier, seed=0):
 
     cov = {
         'evaluations': acc.evaluations,
-        'distinct_nontrivial': len(acc.nontrivial),
+        'distinct_nontrivial': len(acc.nontrivial) + acc.nontrivial_count,
         'rule': check.rule,
         'samples': acc.samples,
         'exhaustive': exhaustive,
@@ -251,7 +253,7 @@ def run_check(check, tier, seed=0):
         f.write('\n')
     print('%s %s: cases=%d/%d evaluations=%d nontrivial=%d states=%d transitions=%d traces=%d '
           'exhaustive=%s wall=%.1fs' % (check.pid, tier, acc.cases, total, acc.evaluations,
-                                        len(acc.nontrivial), len(acc.states), len(acc.transitions),
+                                        len(acc.nontrivial) + acc.nontrivial_count, len(acc.states), len(acc.transitions),
                                         acc.traces_validated, exhaustive, wall))
     interesting = {k: v for k, v in acc.stats.items()}
     print('stats: %s' % json.dumps(dict(sorted(interesting.items()))))
